@@ -190,6 +190,11 @@ const PRIMS: &[&str] = &[
 ];
 
 fn ident(r: &mut Rng, prefix: &str) -> String {
+    // one identifier in twelve is long and shares a 24+ byte prefix (and often its length) with others
+    if r.chance(1, 12) {
+        const LONG: &[&str] = &["ConfigurationFileFormatVersion", "AVeryLongAndDescriptiveIdentifierPrefix"];
+        return format!("{prefix}{}{}", r.pick(LONG), r.pick(&["One", "Two", "Six", "Ten", "Red", "Alpha"]));
+    }
     // mostly ASCII; one in ten syllables is not (user code may use non-ASCII identifiers)
     const SYL: &[&str] = &[
         "ka", "lo", "mi", "ne", "ru", "sa", "ti", "vo", "xe", "zu", "Ba", "De", "Fi", "Go", "Hu", "ka", "lo", "mi", "ne", "ru", "sa", "ti", "vo", "xe", "zu", "Ba", "De", "Fi",
@@ -539,6 +544,29 @@ pub fn family_legacy(r: &mut Rng) -> Key {
 /// Variant-heavy derives: IsVariant / Unwrap / TryUnwrap on enums of mixed variant kinds, and Display-like
 /// derives with one `#[display("..")]` per variant on generic enums (bounds inferred per placeholder).
 pub fn family_variants(r: &mut Rng) -> Key {
+    if r.chance(1, 4) {
+        // an enum-level format that wraps `{_variant}`, under any of the Display-like traits, with
+        // format-less single-field variants (their default placeholder depends on the trait)
+        let (derive, attr) = *r.pick(&[("Display", "display"), ("Binary", "binary"), ("Octal", "octal"), ("LowerHex", "lower_hex"), ("UpperHex", "upper_hex"),
+                                        ("LowerExp", "lower_exp"), ("UpperExp", "upper_exp"), ("Pointer", "pointer")]);
+        let name = ident(r, "Sv");
+        let n = scaled(r, 1, 4);
+        let vs: Vec<String> = (0..n)
+            .map(|i| {
+                let v = format!("{}{i}", ident(r, "V"));
+                match r.below(3) {
+                    0 => format!("{v} ( u8 )"),
+                    1 => format!("{v} {{ inner : u16 }}"),
+                    _ => format!("# [{attr} (\"lit{i}\")] {v}"),
+                }
+            })
+            .collect();
+        let wrap = *r.pick(&["<{_variant}>", "{_variant}!", "[{_variant}] {_variant}"]);
+        return Key {
+            derive: derive.into(),
+            item: format!("# [{attr} (\"{wrap}\")] enum {name} {{ {} }}", vs.join(" , ")),
+        };
+    }
     let n = scaled(r, 3, 10);
     let name = ident(r, "Vr");
     let derive = *r.pick(&["IsVariant", "Unwrap", "TryUnwrap", "Display", "Display", "Debug"]);
@@ -582,7 +610,7 @@ pub const FAMILY_DERIVES: [&[&str]; N_FAMILIES] = [
     &["AsRef", "AsMut"],
     &["Display", "Debug"],
     &["Display", "Debug", "From", "Into", "Binary"],
-    &["IsVariant", "Unwrap", "TryUnwrap", "Display", "Debug"],
+    &["IsVariant", "Unwrap", "TryUnwrap", "Display", "Debug", "Binary", "Octal", "LowerHex", "UpperHex", "LowerExp", "UpperExp", "Pointer"],
 ];
 
 pub fn family(r: &mut Rng, which: usize) -> Key {
